@@ -119,12 +119,34 @@ Definition iface_types (l : lookup_res) : list ty :=
   | _ => []
   end.
 
+(* does a type mention a type parameter? *)
+Fixpoint has_tparam (t : ty) : bool :=
+  let l_ := fix go (l : list ty) : bool := match l with [] => false | x :: r => has_tparam x || go r end in
+  let nl_ := fix go (l : list (string * ty)) : bool :=
+    match l with [] => false | (_, x) :: r => has_tparam x || go r end in
+  match t with
+  | TParam _ => true
+  | TNamed _ _ targs | TAlias _ _ targs => l_ targs
+  | TPtr t | TSlice t | TArray _ t | TChan _ t => has_tparam t
+  | TMap k v => has_tparam k || has_tparam v
+  | TFunc ps _ rs => nl_ ps || nl_ rs
+  | TStruct fs =>
+    (fix go (l : list (string * bool * ty * string)) : bool :=
+       match l with [] => false | (_, _, x, _) :: r => has_tparam x || go r end) fs
+  | TIface _ ms es => nl_ ms || l_ es
+  | TUnion ts =>
+    (fix go (l : list (bool * ty)) : bool :=
+       match l with [] => false | (_, x) :: r => has_tparam x || go r end) ts
+  | TBasic _ _ _ => false
+  end.
+
 Definition is_comparable (t : ty) : bool :=
   match t with TNamed None "comparable" _ => true | _ => false end.
 
 (* can the constraint type itself be used as the type argument of the self-check? *)
 Definition instantiable (tp : tparam) : bool :=
   negb (is_comparable (tp_constraint tp))
+  && negb (has_tparam (tp_constraint tp))
   && negb (existsb is_comparable (tp_under_embeds tp))
   && match tp_under_embeds tp with
      | [] => true
